@@ -38,7 +38,7 @@ theorem retryOnFailure_failed (pos : Nat) (m : Int) (rl : Bool) (a : List Cond) 
 /-- a retry is only decided while the budget is not exhausted -/
 theorem retryOnFailure_not_done (pos : Nat) (m : Int) (rl : Bool) (a : List Cond) (res : PR) (r : Run)
     (h : (retryOnFailure pos m rl a res r).1.done = false) :
-    ¬ (m ≠ -1 ∧ ((failedAt pos r + 1 : Nat) : Int) > m) ∧ (m = -1 ∨ m > 0) ∧ isAbortable a res.outcome = false := by
+    ¬ (m ≠ -1 ∧ ((failedAt pos r + 1 : Nat) : Int) > m) ∧ durExceeded pos r = false ∧ (m = -1 ∨ m > 0) ∧ isAbortable a res.outcome = false := by
   unfold retryOnFailure at h
   simp only at h
   split at h
@@ -46,8 +46,8 @@ theorem retryOnFailure_not_done (pos : Nat) (m : Int) (rl : Bool) (a : List Cond
   · rename_i hne
     simp only [PR.withDone, Bool.or_eq_false_iff, Bool.not_eq_false', Bool.and_eq_true, Bool.not_eq_true',
       decide_eq_false_iff_not, decide_eq_true_eq] at h
-    obtain ⟨hab, ⟨_, hexc⟩, hallow⟩ := h
-    exact ⟨hexc, hallow, hab⟩
+    obtain ⟨hab, ⟨_, hexc, hdur⟩, hallow⟩ := h
+    exact ⟨hexc, hdur, hallow, hab⟩
 
 def excAt (pos : Nat) (r : Run) : Bool := r.exceeded.contains pos
 
@@ -63,13 +63,12 @@ def excAt (pos : Nat) (r : Run) : Bool := r.exceeded.contains pos
 /-- `OnFailure` sets `retriesExceeded` exactly when the count passes `maxRetries` -/
 theorem retryOnFailure_exceeded (pos : Nat) (m : Int) (rl : Bool) (a : List Cond) (res : PR) (r : Run) :
     excAt pos (retryOnFailure pos m rl a res r).2 =
-      (decide (m ≠ -1 ∧ ((failedAt pos r + 1 : Nat) : Int) > m) || excAt pos r) := by
+      (decide (m ≠ -1 ∧ ((failedAt pos r + 1 : Nat) : Int) > m) || durExceeded pos r || excAt pos r) := by
   unfold retryOnFailure
   simp only
   have hg : getFailed (r.emit "rp.onFailure" pos) pos = failedAt pos r := rfl
-  by_cases hexc : (m ≠ -1 ∧ ((failedAt pos r + 1 : Nat) : Int) > m)
-  · split <;> simp [apply_ite (excAt pos), hg, hexc]
-  · split <;> simp [apply_ite (excAt pos), hg, hexc]
+  by_cases hexc : (m ≠ -1 ∧ ((failedAt pos r + 1 : Nat) : Int) > m) <;> cases hd : durExceeded pos r <;>
+    (split <;> simp [apply_ite (excAt pos), hg, hexc, hd])
 
 /-! ## the budget -/
 
@@ -118,7 +117,7 @@ theorem retry_budget (pos : Nat) (m : Int) (hm : 0 ≤ m) (rl : Bool) (h a : Lis
               refine ⟨by push_cast; omega, ?_⟩
               intro hgt
               have : (m ≠ -1 ∧ ((failedAt pos r1 + 1 : Nat) : Int) > m) := ⟨by omega, hgt⟩
-              rw [decide_eq_true this]; rfl
+              rw [decide_eq_true this]; simp
             by_cases hd : (retryOnFailure pos m rl a res1.withFailure r1).1.done = true
             · simp only [hd, if_true, Option.some.injEq, Prod.mk.injEq] at hh
               obtain ⟨_, rfl⟩ := hh; exact hb2
@@ -157,7 +156,7 @@ theorem retry_stops_on_success (pos : Nat) (m : Int) (rl : Bool) (h a : List Con
 /-- **the final result**: after a failure that ends the loop the caller gets `ExceededError{last result, last error}` when the
 budget is exhausted (unless `ReturnLastFailure`), otherwise the failed outcome itself, unchanged -/
 theorem retry_final_result (pos : Nat) (m : Int) (rl : Bool) (a : List Cond) (res1 : PR) (r : Run) :
-    let exc : Bool := decide (m ≠ -1 ∧ ((failedAt pos r + 1 : Nat) : Int) > m)
+    let exc : Bool := decide (m ≠ -1 ∧ ((failedAt pos r + 1 : Nat) : Int) > m) || durExceeded pos r
     (retryOnFailure pos m rl a res1 r).1 =
       if exc && !rl then
         failureResult (match res1.err with | some e => .exceededE res1.val e | none => .exceededV res1.val)
@@ -167,6 +166,18 @@ theorem retry_final_result (pos : Nat) (m : Int) (rl : Bool) (a : List Cond) (re
   have hg : getFailed (r.emit "rp.onFailure" pos) pos = failedAt pos r := rfl
   rw [hg]
   split <;> rfl
+
+/-- **never after a failure handled once the max duration has elapsed**: such a failure ends the loop, and the caller gets
+`ExceededError` carrying that failure (or the failure itself with `ReturnLastFailure`), whatever the retry budget -/
+theorem retry_stops_after_max_duration (pos : Nat) (m : Int) (rl : Bool) (a : List Cond) (res1 : PR) (r : Run)
+    (hd : durExceeded pos r = true) :
+    (retryOnFailure pos m rl a res1 r).1.done = true ∧
+    (rl = false → (retryOnFailure pos m rl a res1 r).1 =
+        failureResult (match res1.err with | some e => .exceededE res1.val e | none => .exceededV res1.val)) ∧
+    (rl = true → (retryOnFailure pos m rl a res1 r).1 = res1.withDone true false) := by
+  rw [retry_final_result]
+  simp only [hd, Bool.or_true, Bool.true_and]
+  cases rl <;> simp [failureResult, PR.withDone]
 
 /-- an abort-matching failure ends the loop (`done`), whatever the budget -/
 theorem retry_abort_stops (pos : Nat) (m : Int) (rl : Bool) (a : List Cond) (res1 : PR) (r : Run)
